@@ -12,7 +12,7 @@ from functools import cached_property
 from typing import Any
 
 from ..contexts import Ctx
-from ..exceptions import FailedUnlinkedRule
+from ..exceptions import FailedUnlinkedRule, GrammarError
 from ..objectmodel import nodedataclass
 from ..util import typename
 from .base import Grammar, Leaf, Model, Rule
@@ -46,6 +46,22 @@ class RuleInclude(Leaf):
         assert name and isinstance(name, str), f'{self!r} {self.name!r}'
         self._exp = grammar.rulemap[name].exp
         assert isinstance(self._exp, Model), f'{self!r}\n{self.name!r}\n{self._exp!r}'
+        self._check_not_circular(grammar)
+
+    def _check_not_circular(self, grammar: Grammar) -> None:
+        # NOTE: an include that reaches itself (possible with @override) has no finite expansion
+        seen: set[int] = set()
+        pending: list[Any] = [self._exp]
+        while pending:
+            node = pending.pop()
+            if node is self:
+                raise GrammarError(f'circular rule include >{self.name}')
+            if id(node) in seen:
+                continue
+            seen.add(id(node))
+            if isinstance(node, RuleInclude) and node.name in grammar.rulemap:
+                pending.append(grammar.rulemap[node.name].exp)
+            pending.extend(node.children())
 
     def missing_rules(self, rulenames: set[str]) -> set[str]:
         assert self.name, f'{self!r} {self.name!r}'
